@@ -345,6 +345,12 @@ pub struct PackPlan {
     pub write_sched: Vec<WDec>,
     pub flush_sched: Vec<FlushDec>,
     pub read_sched: Vec<RDec>,
+    /// the format hands strings over as `visit_str` on a transient buffer, not `visit_string`
+    #[serde(default)]
+    pub transient_strings: bool,
+    /// the reader-side recovery uses `deserialize_in_place` into storage holding another value
+    #[serde(default)]
+    pub in_place: bool,
 }
 
 impl PackPlan {
